@@ -201,6 +201,11 @@ def main():
             keep.append((inp, ag, err, log))
     outs = ck.driver.run(ops)
     for (inp, ag, err, log), out in zip(keep, outs):
+        # side condition of C18_bonds_follow_graph: evaluated by the model for every graph of the run
+        if out.get("closed") is not True:
+            ck.mismatch("AGEN.side-condition fillClosed", inp, "theorem applies", out.get("closed"))
+        else:
+            ck.count("fillClosed:true")
         if err is not None:
             if out.get("ok"):
                 ck.mismatch("AGEN", inp, f"raises {type(err).__name__}: {str(err)[:80]}", "ok")
